@@ -18,7 +18,8 @@ created in the left operand's registry; (R2) Unit.__eq__ reads exactly scale, of
 the expression, registry or LaTeX form) after an isinstance test, and __hash__ reads exactly the registry's unit_system_id
 and the expression; (R3) the in-place simplify() is only ever called on temporaries inside the library, never on a unit a
 caller or a cache can hold; (R4) the numeric factor that _cancel_mul removes from the expression is the scale of the
-cancelled pair and is removed only when the pair is dimensionless."""
+cancelled pair and is removed only when the pair is dimensionless.
+(R1, extended) decision table of Unit * Unit and Unit / Unit over abstract units living in registries of their own, with the Unit(...) constructor modelled: scale of the result, commutativity of the surviving offset, left operand's registry; (R5) every base dimension is a sympy Symbol declared positive and spelled '(<name>)'."""
 LEVEL_NOTE = """Undecided: commutativity, associativity and the power laws themselves - they depend on sympy's canonical
 forms and float rounding of base_value; only the structure that makes the (scale, dimension) map a homomorphism is checked."""
 EXPLANATION = LEVEL_TEXT
